@@ -1,0 +1,27 @@
+//! Verification hooks. Compiled only with `--cfg raptorq_verif`; never part of a normal build.
+//! Read-only re-exports and accessors used by the external conformance harness.
+
+pub use crate::base::deg;
+pub use crate::base::intermediate_tuple;
+pub use crate::constraint_matrix::enc_indices;
+pub use crate::rng::rand;
+pub use crate::systematic_constants::{
+    MAX_SOURCE_SYMBOLS_PER_BLOCK, SYSTEMATIC_INDICES_AND_PARAMETERS, calculate_p1,
+    extended_source_block_symbols, num_hdpc_symbols, num_intermediate_symbols, num_ldpc_symbols,
+    num_lt_symbols, num_pi_symbols, systematic_index,
+};
+
+pub use crate::octet::verif_tables::{oct_exp, oct_log, octet_mul, octet_mul_hi, octet_mul_low};
+
+/// RFC 6330 4.3 parameter derivation (crate-private in normal builds).
+pub fn derive_parameters(
+    transfer_length: u64,
+    max_packet_size: u16,
+    decoder_memory_requirement: u64,
+) -> crate::ObjectTransmissionInformation {
+    crate::ObjectTransmissionInformation::generate_encoding_parameters(
+        transfer_length,
+        max_packet_size,
+        decoder_memory_requirement,
+    )
+}
